@@ -5,7 +5,7 @@
 
 namespace c05 {
 
-enum St : uint8_t { S_SPAWN, S_PAUSE, S_RESOLVE_DISCARD, S_RESOLVE_AWAIT, S_RESOLVE_KEEP, S_AWAIT, S_LOCK, S_UNLOCK_DISCARD, S_UNLOCK_AWAIT, S_PUSH, S_POP, S_COUNT };
+enum St : uint8_t { S_SPAWN, S_PAUSE, S_RESOLVE_DISCARD, S_RESOLVE_AWAIT, S_RESOLVE_KEEP, S_AWAIT, S_LOCK, S_UNLOCK_DISCARD, S_UNLOCK_AWAIT, S_PUSH, S_POP, S_START_NESTED, S_COUNT };
 struct Step { uint8_t kind, arg; };
 constexpr int NF = 4, MAXC = 8;
 struct Prog { std::vector<std::vector<Step>> co; std::vector<Step> main_ops; };
@@ -16,7 +16,7 @@ inline Prog decode(hz::Reader &r) {
     for (unsigned i = 0; i < n; i++) {
         std::vector<Step> s; unsigned len = r.mod(7); bool owns = false;
         for (unsigned k = 0; k < len; k++) {
-            Step x; x.kind = (uint8_t)r.mod(S_COUNT); x.arg = (uint8_t)r.mod(NF);
+            Step x; x.kind = (uint8_t)r.mod(S_COUNT); x.arg = (uint8_t)r.mod(x.kind == S_START_NESTED ? 12 : NF);
             if (x.kind == S_LOCK) { if (owns) x.kind = S_PAUSE; else owns = true; }
             else if (x.kind == S_UNLOCK_DISCARD || x.kind == S_UNLOCK_AWAIT) { if (!owns) x.kind = S_SPAWN; else owns = false; }
             s.push_back(x);
@@ -28,7 +28,8 @@ inline Prog decode(hz::Reader &r) {
     p.main_ops[0].kind = S_SPAWN;
     return p;
 }
-static const char *sn[] = {"spawn+detach", "pause", "resolve(discard)", "co_await resolve", "resolve(kept, released later)", "await future", "lock", "unlock(discard)", "co_await unlock", "push", "pop"};
+static const char *sn[] = {"spawn+detach", "pause", "resolve(discard)", "co_await resolve", "resolve(kept, released later)", "await future", "lock", "unlock(discard)", "co_await unlock", "push", "pop",
+                           "start() a child that runs nested and finishes without suspending"};
 inline std::string describe(const Prog &p) {
     hz::Desc d; d << (unsigned)p.co.size() << " coroutines;";
     for (size_t i = 0; i < p.co.size(); i++) { d << " C" << (unsigned)i << ":"; for (auto &s : p.co[i]) { d << " " << sn[s.kind]; if (s.kind >= S_RESOLVE_DISCARD && s.kind <= S_AWAIT) d << "#" << (unsigned)s.arg; } d << ";"; }
@@ -113,6 +114,23 @@ struct World {
 
 inline cocls::async<void> script(World *w, int id);
 
+// child started with start() from inside a running coroutine: documented to run immediately, nested, like a
+// function call.  It performs only non-suspending steps (it may ready other coroutines) and finishes: control
+// must come back to the parent - nothing that is queued may run in between.
+inline cocls::async<void> nested_child(World *w, int parent, int cid, uint8_t a) {
+    Model &m = w->m;
+    w->on_run(cid, "nested child start");
+    int j = a % NF;
+    switch ((a >> 2) % 3) {
+        case 0: m.add_batch(w->model_resolve(j)); w->prom[j](1); break;
+        case 1: m.add_batch(w->model_push()); w->q.push(5); break;
+        default: break;
+    }
+    w->on_run(cid, "nested child finish");
+    m.running = parent;              // the nested resume() returns to the parent
+    co_return;
+}
+
 inline void spawn_from(World *w) {
     Model &m = w->m;
     if (m.next_spawn >= (int)w->p->co.size()) return;
@@ -158,6 +176,13 @@ inline cocls::async<void> script(World *w, int id) {
                 co_await own.release();
             } break;
             case S_PUSH: m.add_batch(w->model_push()); w->q.push(5); break;
+            case S_START_NESTED: {
+                int cid = 100 + id * 8 + (int)i;
+                m.running = cid;
+                cocls::future<void> f = nested_child(w, id, cid, s.arg).start();
+                HZ_CHECK(f.ready(), "a child that never suspends was not finished when start() returned");
+                w->on_run(id, "after the nested start() returned");
+            } break;
             case S_POP: {
                 if (m.q_items > 0) m.q_items--; else { m.q_waiters.push_back(id); w->model_suspend(); }
                 int v = co_await w->q.pop(); (void)v;
